@@ -10,6 +10,8 @@ import (
 
 	v1 "sigs.k8s.io/karpenter/pkg/apis/v1"
 	"sigs.k8s.io/karpenter/pkg/controllers/nodeclaim/lifecycle"
+	"sigs.k8s.io/karpenter/pkg/controllers/provisioning"
+	"sigs.k8s.io/karpenter/pkg/controllers/state"
 	"sigs.k8s.io/karpenter/pkg/operator/options"
 	"sigs.k8s.io/karpenter/pkg/state/nodepoolhealth"
 
@@ -156,6 +158,20 @@ func init() {
 					if (cl.Verb == "list" && cl.Kind == "Pod") || cl.Verb == "create" {
 						l.Violation("scheduling pass ran while a created NodeClaim was unlaunched", fmt.Sprintf("second Provisioner.Reconcile made call %q although %d NodeClaims are not launched yet  [%s]", cl.String(), created, c.String()), map[string]any{"case": c})
 						break
+					}
+				}
+				// ---- (1b) ... also right after a controller restart (fresh cluster cache hydrated from the API)
+				if cd[0] == 0 && combo == 0 {
+					w.Cluster = state.NewCluster(w.Clock, w.Client, w.CP)
+					w.Prov = provisioning.NewProvisioner(w.Client, w.Rec, w.CP, w.Cluster, w.Clock, w.DeviceAlloc, w.VPods)
+					w.RebindInformers()
+					w.SyncCluster()
+					calls = provisionerReconcile(w, "p1c")
+					for _, cl := range calls {
+						if (cl.Verb == "list" && cl.Kind == "Pod") || cl.Verb == "create" {
+							l.Violation("scheduling pass ran while a created NodeClaim was unlaunched (after a restart)", fmt.Sprintf("the first Provisioner.Reconcile after a controller restart made call %q although %d NodeClaims are not launched yet  [%s]", cl.String(), created, c.String()), map[string]any{"case": c})
+							break
+						}
 					}
 				}
 				// ---- launch choice x stage
